@@ -112,7 +112,7 @@ pub fn inst_sat(r: &asp::Rule, m: &Ht, s: &Asg) -> bool {
 
 /// every ground instance of r over the given values is satisfied; returns a violating assignment otherwise
 pub fn rule_sat(r: &asp::Rule, m: &Ht, values: &[Val]) -> Result<(), Asg> {
-    let vars: Vec<String> = r.variables().into_iter().map(|v| v.0).collect();
+    let vars: Vec<String> = crate::own::rule_vars(r);
     let mut idx = vec![0usize; vars.len()];
     if values.is_empty() && !vars.is_empty() { return Ok(()); }
     loop {
